@@ -148,10 +148,11 @@ pub broadcast proof fn lemma_unset_push(n: OrderedHashLeafNode, log: Seq<Op>, o:
         let x = Op::Unset(p); let w = choose|w: int| 0 <= w < log.len() && log[w] == x; assert(log.push(o)[w] == x); } } _ => {} }
 }
 pub open spec fn pruned_in(log: Seq<Op>, h: Hash, p: u64, at: u64) -> bool { log.contains(Op::Pruned(h, p, at)) }
-/// a processed node that was due at the size the MMR had when its turn came HAS been pushed: a hash claimed at or beyond the size, a leaf claimed exactly at the size
+/// a processed node that was due at the size the MMR had when its turn came HAS been pushed: a hash claimed at or beyond the size, a leaf claimed exactly at the size;
+/// and a pruned subtree that arrived while THIS MMR held nothing but the locally created genesis leaf (size 1) was pushed onto the EMPTY MMR: the genesis leaf is rolled back first
 pub open spec fn node_push_ok(n: OrderedHashLeafNode, sz: u64, log: Seq<Op>, hs: Seq<Hash>, ld: Seq<Elem>) -> bool {
     match n {
-        OrderedHashLeafNode::Hash(i, p) => (p >= sz && i < hs.len()) ==> exists|at: u64| #[trigger] pruned_in(log, hs[i as int], p, at),
+        OrderedHashLeafNode::Hash(i, p) => (p >= sz && i < hs.len()) ==> exists|at: u64| #[trigger] pruned_in(log, hs[i as int], p, at) && (sz == 1 ==> at == 0),
         OrderedHashLeafNode::Leaf(i, p) => (p == sz && i < ld.len()) ==> log.contains(Op::Leaf(ld[i as int], p)),
     }
 }
@@ -163,7 +164,7 @@ pub broadcast proof fn lemma_push_push(n: OrderedHashLeafNode, sz: u64, log: Seq
 {
     match n {
         OrderedHashLeafNode::Hash(i, p) => { if p >= sz && i < hs.len() {
-            let at = choose|at: u64| #[trigger] pruned_in(log, hs[i as int], p, at); let x = Op::Pruned(hs[i as int], p, at);
+            let at = choose|at: u64| #[trigger] pruned_in(log, hs[i as int], p, at) && (sz == 1 ==> at == 0); let x = Op::Pruned(hs[i as int], p, at);
             let w = choose|w: int| 0 <= w < log.len() && log[w] == x; assert(log.push(o)[w] == x); assert(log.push(o).contains(x)); assert(pruned_in(log.push(o), hs[i as int], p, at)); } }
         OrderedHashLeafNode::Leaf(i, p) => { if p == sz && i < ld.len() {
             let x = Op::Leaf(ld[i as int], p); let w = choose|w: int| 0 <= w < log.len() && log[w] == x; assert(log.push(o)[w] == x); } }
